@@ -23,6 +23,11 @@ import (
 //	R5  they still advance the position: TrackOffset reaches their seqno.
 func init() { checkers["C14"] = checkC14 }
 
+type c14ans struct {
+	cmd, status string
+	used        bool
+}
+
 func reservedKey(k []byte) bool { return isInternalKey(k) }
 
 func checkC14(run *Run, res *Result) {
@@ -37,15 +42,17 @@ func checkC14(run *Run, res *Result) {
 		n        int
 	}
 	items := map[mk]map[uint64]*emitted{}
-	lastReqN := map[string]int{}       // member|key -> journal N of the latest write request
-	prevWriteReqN := map[mk]int{}      // request N of the previous checkpoint write
-	writes := map[mk]int{}             // checkpoint writes seen
+	lastAns := map[string]*c14ans{}    // member|key -> the latest answered write request
+	prevAttemptN := map[mk]int{}       // journal N of the first request of the previous save attempt
+	attempts := map[mk]int{}           //
 	lastJust := map[mk]int{}           // journal N of the latest justification
 	lastJustWhat := map[mk]string{}    //
 	owner := map[string]string{}       // key -> "group|vb"
 	maxTrack := map[mk]uint64{}        //
 	pendingReserved := map[mk]uint64{} // highest reserved-prefix seqno emitted
 	pendingN := map[mk]int{}
+	epT := map[int]int64{}
+	epVbs := map[int]map[int]bool{}
 	dotted := func(g string) bool { return strings.Contains(g, ".") }
 	for i := range run.Evs {
 		e := &run.Evs[i]
@@ -65,11 +72,59 @@ func checkC14(run *Run, res *Result) {
 			if e.S == "Close" {
 				disturbed[e.M] = true
 			}
+		case journal.KRsp:
+			if e.M > 0 && isCkptKey(e.Key) && e.S != "CMD_SUBDOCMULTILOOKUP" {
+				lastAns[fmt.Sprintf("%d|%s", e.M, e.Key)] = &c14ans{cmd: e.S, status: e.S2}
+			}
+			// a failed save re-marks everything it had dumped: every vBucket of that save episode (its write
+			// requests reach the node at one fake instant) may legitimately be written again
+			if e.M > 0 && isCkptKey(e.Key) && e.S != "CMD_SUBDOCMULTILOOKUP" && e.S2 != "ok" && e.S2 != "0x01" && e.S2 != "0x86" && e.S2 != "0x85" {
+				for vb := range epVbs[e.M] {
+					k := mk{e.M, vb}
+					lastJust[k], lastJustWhat[k] = e.N, "failed-save"
+				}
+				res.probe("failed-save-in-closed-loop")
+			}
 		case journal.KReq:
-			if e.M > 0 && (strings.Contains(e.S, "MUTATION") || e.S == "CMD_SET" || e.S == "CMD_ADD") {
-				// the first request of a write episode (xattr upsert -> not found -> create -> xattr upsert is one episode)
-				if id := fmt.Sprintf("%d|%s", e.M, e.Key); lastReqN[id] == 0 {
-					lastReqN[id] = e.N
+			if e.M > 0 && isCkptKey(e.Key) && (strings.Contains(e.S, "MUTATION") || e.S == "CMD_SET" || e.S == "CMD_ADD") {
+				// One save attempt of (member, vBucket) is a chain of requests: xattr upsert (-> "not found" -> create ->
+				// xattr upsert). Attempts, not applied writes, are judged: a request the client gave up on (a sibling of
+				// the same save failed) may still be applied by the node much later.
+				id := fmt.Sprintf("%d|%s", e.M, e.Key)
+				la := lastAns[id]
+				cont := la != nil && !la.used && (la.cmd == e.S && (la.status == "0x86" || la.status == "0x85") || // gocbcore retries TMPFAIL / EBUSY itself
+					la.cmd == "CMD_SUBDOCMULTIMUTATION" && la.status == "0x01" && e.S != "CMD_SUBDOCMULTIMUTATION" ||
+					(la.cmd == "CMD_SET" || la.cmd == "CMD_ADD") && la.status == "ok" && e.S == "CMD_SUBDOCMULTIMUTATION")
+				if la != nil {
+					la.used = true
+				}
+				if !cont {
+					vb := ckptVb(e.Key)
+					k := mk{e.M, vb}
+					// save episode = the attempts that start within a few milliseconds of each other (the scheduler's
+					// clock ticks a little after every step); retries and create-then-upsert chains do not start one
+					if e.T-epT[e.M] > 50_000_000 || epVbs[e.M] == nil {
+						epT[e.M], epVbs[e.M] = e.T, map[int]bool{}
+					}
+					epVbs[e.M][vb] = true
+					attempts[k]++
+					res.probe("checkpoint-write-judged")
+					switch {
+					case attempts[k] == 1:
+						if lastJust[k] == 0 && cfg.AutoReset != "latest" {
+							// (with auto-reset latest a fresh session marks every non-empty vBucket for saving by design)
+							res.violate("C14", "R3-reserved-event-flagged-for-saving", e.N, "first-write",
+								"member %d sends a checkpoint write for vb %d although the vBucket has seen no acknowledgement and no stream event other than reserved-prefix documents since the session began",
+								e.M, vb)
+						}
+					case lastJust[k] < prevAttemptN[k]:
+						res.violate("C14", "R3-reserved-event-flagged-for-saving", e.N, "plain",
+							"member %d sends the checkpoint of vb %d again although since its previous write was sent (event #%d) the vBucket saw no acknowledgement, no stream event other than reserved-prefix documents and no failed save: an absorbed event flagged the position for saving",
+							e.M, vb, prevAttemptN[k])
+					default:
+						res.probe("rewrite-justified-by:" + lastJustWhat[k])
+					}
+					prevAttemptN[k] = e.N
 				}
 			}
 		case journal.KEmit:
@@ -175,21 +230,6 @@ func checkC14(run *Run, res *Result) {
 				if e.Off == nil {
 					continue // creation of the empty document that precedes the first xattr write
 				}
-				res.probe("checkpoint-write-judged")
-				k := mk{e.M, vb}
-				reqN := lastReqN[fmt.Sprintf("%d|%s", e.M, key)]
-				writes[k]++
-				if writes[k] > 1 && !cfg.Faults {
-					if lastJust[k] < prevWriteReqN[k] {
-						res.violate("C14", "R3-reserved-event-flagged-for-saving", e.N, "plain",
-							"member %d wrote the checkpoint of vb %d again (seq %d) although since its previous write was sent (event #%d) the vBucket saw no acknowledgement and no stream event other than reserved-prefix documents: an absorbed event flagged the position for saving",
-							e.M, vb, e.Off.Seq, prevWriteReqN[k])
-					} else {
-						res.probe("rewrite-justified-by:" + lastJustWhat[k])
-					}
-				}
-				prevWriteReqN[k] = reqN
-				delete(lastReqN, fmt.Sprintf("%d|%s", e.M, key))
 			case strings.HasPrefix(tail, "instance:"):
 				id := g + "|instance|" + strings.TrimPrefix(tail, "instance:")
 				if o, ok := owner[key]; ok && o != id {
